@@ -27,6 +27,21 @@ def same_ind(a, b):
     return a.n_qubits == b.n_qubits and a.layers == b.layers and hexes(a.parameter_values) == hexes(b.parameter_values)
 
 
+def typed_int(k, k_type):
+    """layer ids as the integer types callers use (HEAD accepts numpy integers and int subclasses like plain ints)"""
+    if k_type in (None, "int"):
+        return k
+    import numpy as np
+
+    if k_type in ("int64", "intp", "int32"):
+        return getattr(np, k_type)(k)
+
+    class LayerId(int):
+        pass
+
+    return LayerId(k)
+
+
 def call(f):
     try:
         return ("ok", f())
@@ -91,6 +106,7 @@ def do_single_case(ctx, case):
     L, n = len(ind["layers"]), ind["n"]
     counts = [evqe.layer_n_parameters(l) for l in ind["layers"]]
     gi = evqe.g_individual(ind, toks)
+    counts_txt = counts if len(counts) <= 16 else f"{counts[:8]}...({len(counts)} layers)"
     ctx.tally(kind)
     if any(c == 0 for c in counts):
         ctx.tally("has-parameterless-layer")
@@ -109,7 +125,7 @@ def do_single_case(ctx, case):
         ctx.tally("remove:in-range" if in_range else "remove:out-of-range")
         if in_range:
             if res[0] != "ok":
-                ctx.violation("oracle", f"remove-raises-{res[1]}", f"remove_layers(k={k}) on a valid individual with {L} layers (parameter counts {counts}) raised {res[1]}: {res[2]}", case)
+                ctx.violation("oracle", f"remove-raises-{res[1]}", f"remove_layers(k={k}) on a valid individual with {L} layers (parameter counts {counts_txt}) raised {res[1]}: {res[2]}", case)
             else:
                 r = res[1]
                 want = {"n": n, "layers": ind["layers"][: L - k], "values": ind["values"][: sum(counts[: L - k])]}
@@ -149,7 +165,13 @@ def do_single_case(ctx, case):
     if kind == "change_layer":
         lid, vs = case["layer_id"], case["vs"]
         k = lid % L
-        res = call(lambda: EVQEIndividual.change_layer_parameter_values(o, lid, tuple(vs)))
+        lid_arg = typed_int(lid, case.get("layer_id_type"))
+        vs_obj = tuple(vs)
+        res = call(lambda: EVQEIndividual.change_layer_parameter_values(o, lid_arg, vs_obj))
+        if case.get("layer_id_type"):
+            ctx.tally(f"change_layer:id-type={case['layer_id_type']}")
+        if L > 256:
+            ctx.tally(f"change_layer:very-deep:target={'last' if k == L - 1 else k}")
         ok = len(vs) == counts[k]
         ctx.tally("change_layer:ok" if ok else "change_layer:wrong-count")
         ctx.tally("change_layer:id-" + ("negative" if lid < 0 else "beyond" if lid >= L else "plain"))
@@ -161,14 +183,14 @@ def do_single_case(ctx, case):
                 want = expected_slices(ind)
                 want[k] = hexes(vs)
                 if r.layers != o.layers or r.n_qubits != n or not r.is_valid() or layer_slices(r) != want or hexes(r.parameter_values) != [h for s in want for h in s]:
-                    ctx.violation("oracle", "change-layer-wrong", f"change_layer_parameter_values(layer_id={lid}): the values of layer {k} are not exactly the new ones or another layer changed (parameter counts {counts})", case)
+                    ctx.violation("oracle", "change-layer-wrong", f"change_layer_parameter_values(layer_id={lid}): the values of layer {k} are not exactly the new ones or another layer changed (parameter counts {counts_txt})", case)
         elif res[0] != "exc" or res[1] != EXC:
             ctx.violation("oracle", "change-layer-count", f"change_layer_parameter_values with {len(vs)} values for a layer with {counts[k]} parameters must raise {EXC}, got {res[:2]}", case)
         for v in vs:
             toks.tok(v)
         g = f"CChangeLayer {gi} {g_z(lid)} {evqe.g_values(vs, toks)} {g_res(res, toks)}"
         # second case on the same input: the getter
-        got = call(lambda: o.get_layer_parameter_values(lid))
+        got = call(lambda: o.get_layer_parameter_values(lid_arg))
         if got[0] != "ok":
             ctx.violation("oracle", f"get-layer-raises-{got[1]}", f"get_layer_parameter_values(layer_id={lid}) raised {got[1]}: {got[2]} (layer parameter counts {counts})", case)
             return g
@@ -267,6 +289,24 @@ def gen_case(rng):
     return {"kind": kind, "ind": ind, "n_layers": rng.choice([1, 1, 2, 2, 3, 4, 0, -1]), "randomize": rng.random() < 0.35, "seed": rng.randrange(2**31)}
 
 
+def gen_very_deep_change(rng, target):
+    """1 qubit, 258-300 layers, change_layer_parameter_values aimed at layer `target` (around 256, last, negative)"""
+    L = rng.randint(258, 300)
+    layers = [{"n": 1, "gates": [["R", 0]]} if rng.random() < 0.6 else {"n": 1, "gates": [["I", 0]]} for _ in range(L)]
+    lid = L - 1 if target == "last" else target
+    if rng.random() < 0.8:
+        layers[lid % L] = {"n": 1, "gates": [["R", 0]]}
+    values = [round(rng.uniform(-3, 3), 4) + j * 1e-3 for j in range(sum(evqe.layer_n_parameters(l) for l in layers))]
+    return {"kind": "change_layer", "ind": {"n": 1, "layers": layers, "values": values}, "layer_id": lid, "vs": [100.5 + j for j in range(evqe.layer_n_parameters(layers[lid % L]))]}
+
+
+def gen_typed_change(rng, k_type):
+    while True:
+        c = gen_case(rng)
+        if c["kind"] == "change_layer":
+            return dict(c, layer_id_type=k_type)
+
+
 def gen_deep_case(rng, L=None, n=None):
     """1-3 qubits, 8-12 layers (or ~100 on 1 qubit) with non-zero values: the append / removal crosses a depth of
     10 (100) layers, where parameter names of different width meet"""
@@ -326,7 +366,7 @@ def run(ctx):
     translate.check_link(ctx, "C16")
     ctx.rule = ("random valid individuals (1-6 qubits, 1-6 layers, 30% parameterless layers, a quarter from the implementation's own random_individual) x one operation: "
                 "remove_layers k in [-1, L+1]; change_parameter_values with the right count or off by 1/3; change_layer_parameter_values with layer ids in [-2L, 2L) and right/wrong counts (+ the getter); "
-                "add_random_layers with n_layers in {-1,0,1..4}, zero or random initialisation, followed by remove_layers of the same count; deep individuals (1-3 qubits, 8-12 layers, and ~100 layers on 1 qubit, non-zero values) x zero-initialised append of 1-4 layers / removal, unitary compared before/after (depth crosses 10 and 100); values include -1.0 / -2.0 (equal hash); hash-collision twins: the same operation on 2-3 individuals / value vectors identical except for -1.0 / -2.0 / int -1 or 0.0 / -0.0, consecutively in one process; distinct = distinct (individual, operation, arguments); all cases non-trivial")
+                "add_random_layers with n_layers in {-1,0,1..4}, zero or random initialisation, followed by remove_layers of the same count; very deep individuals (1 qubit, 258-300 layers) x change_layer_parameter_values aimed at layers 255..258 / last / negative ids; layer ids given as numpy.int64 / intp / int32 / an int subclass; deep individuals (1-3 qubits, 8-12 layers, and ~100 layers on 1 qubit, non-zero values) x zero-initialised append of 1-4 layers / removal, unitary compared before/after (depth crosses 10 and 100); values include -1.0 / -2.0 (equal hash); hash-collision twins: the same operation on 2-3 individuals / value vectors identical except for -1.0 / -2.0 / int -1 or 0.0 / -0.0, consecutively in one process; distinct = distinct (individual, operation, arguments); all cases non-trivial")
     if not rnglog.selftest():
         ctx.violation("correspondence", "rnglog-selftest", "the logging Random does not reproduce random.Random on this interpreter (vlib/rnglog.py)")
     cases = []
@@ -336,6 +376,12 @@ def run(ctx):
     cases += fixed_cases()
     for _ in range(ctx.n(1500, 12000)):
         cases.append(gen_case(ctx.rng))
+    for target in ((255, 256, 257, 258, "last", -1, -2) if ctx.quick else (0, 1, 254, 255, 256, 257, 258, 259, 270, "last", -1, -2, -40, 557, -301)):
+        for _ in range(ctx.n(1, 3)):
+            cases.append(gen_very_deep_change(ctx.rng, target))
+    for k_type in ("int64", "intp", "int32", "intsub"):
+        for _ in range(ctx.n(12, 100)):
+            cases.append(gen_typed_change(ctx.rng, k_type))
     for _ in range(ctx.n(40, 400)):
         cases.append(gen_deep_case(ctx.rng))
     for L in ((99, 100) if ctx.quick else (98, 99, 100, 101)):
